@@ -19,3 +19,409 @@ Lemma pcmp_refuted :
     a = insert h 0 (empty h) [1; 10]%N /\ b = insert h 0 (empty h) [2; 20]%N /\
     pcmp h a b = PPanic /\ subset_cmp (riter h a) (riter h b) = PNone.
 Proof. exists 1, pcmp_wit_a, pcmp_wit_b. repeat split; vm_compute; reflexivity. Qed.
+
+(* ------------------------------------------------------------------ well-formed tries
+   [wf h d t]: t has the shape of a trie of height h whose root is keyed on column d; children
+   keys are distinct (HashMap), no child is empty (children only come into being by an insert
+   or by merging a non-empty child), every row below child k has k in column d; leaves are
+   duplicate-free (hash set). *)
+Definition child_ok (P : ght -> Prop) (rows_of : ght -> list row) (d : nat) (kc : N * ght) : Prop :=
+  P (snd kc) /\ rows_of (snd kc) <> [] /\ Forall (fun r => head d r = fst kc) (rows_of (snd kc)).
+
+Fixpoint wf (h d : nat) (t : ght) : Prop :=
+  match h, t with
+  | 0, Leaf rows => NoDup rows
+  | S h', Inner ch =>
+      NoDup (map fst ch) /\ Forall (child_ok (wf h' (S d)) (riter h') d) ch
+  | _, _ => False
+  end.
+
+Lemma wf_empty h d : wf h d (empty h).
+Proof. destruct h; cbn; [constructor|split; constructor]. Qed.
+
+Lemma riter_empty h : riter h (empty h) = [].
+Proof. destruct h; reflexivity. Qed.
+
+(* ---- leaves: the hash set of ModelVC *)
+Lemma nodup_Rset s : NoDup s -> Rset s s.
+Proof.
+  intros nd r. pose proof (proj1 (NoDup_count_occ row_eq_dec s) nd r) as C.
+  rewrite <- cnt_count_occ in C. unfold mem. destruct (Nat.ltb_spec 0 (cnt s r)); lia.
+Qed.
+
+Lemma leaf_insert_spec s r :
+  NoDup s -> NoDup (fst (hs_insert s r)) /\
+             forall x, In x (fst (hs_insert s r)) <-> In x s \/ x = r.
+Proof.
+  intros nd. pose proof (hs_insert_spec r (nodup_Rset nd)) as [R _]. split.
+  - exact (Rset_nodup R).
+  - intros x. rewrite (Rset_in x R), mem_in, in_app_iff. cbn. intuition.
+Qed.
+
+Lemma leaf_extend_spec b : forall a,
+  NoDup a -> NoDup (hs_extend a b) /\ forall x, In x (hs_extend a b) <-> In x a \/ In x b.
+Proof.
+  intros a nd. pose proof (hs_extend_spec b (nodup_Rset nd)) as R. split.
+  - exact (Rset_nodup R).
+  - intros x. rewrite (Rset_in x R), mem_in, in_app_iff. tauto.
+Qed.
+
+(* ---- children maps *)
+Lemma cget_in ch k c : cget ch k = Some c -> In (k, c) ch.
+Proof.
+  induction ch as [|[k' c'] ch IH]; cbn; [discriminate|].
+  destruct (N.eqb_spec k k'); [intros [= <-]; subst; left; reflexivity|auto].
+Qed.
+
+Lemma in_cget ch k c : NoDup (map fst ch) -> In (k, c) ch -> cget ch k = Some c.
+Proof.
+  induction ch as [|[k' c'] ch IH]; cbn; intros nd i; [tauto|].
+  inversion nd as [|? ? n nd']; subst. destruct i as [e|i].
+  - inversion e; subst. rewrite N.eqb_refl. reflexivity.
+  - destruct (N.eqb_spec k k'); [|auto]. subst. exfalso. apply n.
+    apply (in_map fst) in i. exact i.
+Qed.
+
+Lemma cget_none ch k : cget ch k = None <-> ~ In k (map fst ch).
+Proof.
+  induction ch as [|[k' c'] ch IH]; cbn; [tauto|].
+  destruct (N.eqb_spec k k'); [subst; split; [discriminate|tauto]|].
+  rewrite IH. split; [intros n' [e|i]; [congruence|tauto]|tauto].
+Qed.
+
+Lemma cupd_keys ch k dflt f y :
+  In y (map fst (cupd ch k dflt f)) <-> In y (map fst ch) \/ y = k.
+Proof.
+  induction ch as [|[k' c'] ch IH]; cbn; [intuition|].
+  destruct (N.eqb_spec k k'); cbn; [subst; intuition|]. rewrite IH. intuition.
+Qed.
+
+Lemma in_riter_inner h ch x :
+  In x (riter (S h) (Inner ch)) <-> exists k c, In (k, c) ch /\ In x (riter h c).
+Proof.
+  cbn. rewrite in_flat_map. split.
+  - intros [[k c] [i ix]]. exists k, c. tauto.
+  - intros (k & c & i & ix). exists (k, c). tauto.
+Qed.
+
+(* ------------------------------------------------------------------ insert *)
+Definition insert_ok (h : nat) : Prop :=
+  forall d t r, wf h d t ->
+    wf h d (insert h d t r) /\
+    forall x, In x (riter h (insert h d t r)) <-> In x (riter h t) \/ x = r.
+
+Lemma insert_children h d r :
+  insert_ok h ->
+  let k := head d r in
+  let f := fun c => insert h (S d) c r in
+  forall ch, NoDup (map fst ch) -> Forall (child_ok (wf h (S d)) (riter h) d) ch ->
+    NoDup (map fst (cupd ch k (empty h) f)) /\
+    Forall (child_ok (wf h (S d)) (riter h) d) (cupd ch k (empty h) f) /\
+    forall x, In x (flat_map (fun kc => riter h (snd kc)) (cupd ch k (empty h) f)) <->
+              In x (flat_map (fun kc => riter h (snd kc)) ch) \/ x = r.
+Proof.
+  intros IH k f.
+  assert (OK : forall c, wf h (S d) c -> Forall (fun r0 => head d r0 = k) (riter h c) ->
+                         child_ok (wf h (S d)) (riter h) d (k, f c)).
+  { intros c W F. destruct (IH (S d) c r W) as [W' M]. unfold child_ok, f. cbn [fst snd].
+    split; [assumption|split].
+    - intros E. assert (i : In r (riter h (insert h (S d) c r))) by (apply M; tauto).
+      rewrite E in i. exact i.
+    - apply Forall_forall. intros x i. apply M in i as [i| ->]; [|reflexivity].
+      rewrite Forall_forall in F. apply F, i. }
+  induction ch as [|[k' c'] ch IHch]; intros nd F.
+  - cbn [cupd map fst flat_map snd]. split; [|split].
+    + repeat constructor. intros [].
+    + constructor; [|constructor]. apply OK; [apply wf_empty|]. rewrite riter_empty. constructor.
+    + intros x. rewrite app_nil_r. unfold f.
+      destruct (IH (S d) (empty h) r (wf_empty h (S d))) as [_ M]. rewrite M, riter_empty.
+      cbn. tauto.
+  - inversion nd as [|? ? n nd']; inversion F as [|? ? P F']; subst. cbn [cupd].
+    destruct (N.eqb_spec k k') as [e|ne].
+    + subst k'. cbn [map fst flat_map snd]. destruct P as (W & NE & H). cbn [fst snd] in *. split; [|split].
+      * assumption.
+      * constructor; [apply OK; assumption|assumption].
+      * intros x. rewrite !in_app_iff. unfold f.
+        destruct (IH (S d) c' r W) as [_ M]. rewrite M. tauto.
+    + destruct (IHch nd' F') as (nd2 & F2 & M2). cbn [map fst flat_map snd]. split; [|split].
+      * constructor; [|assumption]. rewrite cupd_keys. intros [i|e]; [tauto|congruence].
+      * constructor; assumption.
+      * intros x. rewrite !in_app_iff, M2. tauto.
+Qed.
+
+Lemma insert_spec h : insert_ok h.
+Proof.
+  induction h as [|h IH]; intros d t r W.
+  - destruct t as [rows|]; [|contradiction]. cbn in *. apply leaf_insert_spec, W.
+  - destruct t as [|ch]; [contradiction|]. destruct W as [nd F]. cbn [insert wf riter].
+    destruct (@insert_children h d r IH ch nd F) as (nd' & F' & M). split; [split|]; assumption.
+Qed.
+
+(* ------------------------------------------------------------------ contains *)
+Lemma contains_spec h : forall d t r, wf h d t -> (contains h d t r = true <-> In r (riter h t)).
+Proof.
+  induction h as [|h IH]; intros d t r W.
+  - destruct t as [rows|]; [|contradiction]. cbn. rewrite existsb_exists. split.
+    + intros [x [i e]]. destruct (row_eqb_spec x r); [subst; assumption|discriminate].
+    + intros i. exists r. split; [assumption|apply row_eqb_refl].
+  - destruct t as [|ch]; [contradiction|]. destruct W as [nd F]. cbn [contains].
+    rewrite in_riter_inner. rewrite Forall_forall in F. destruct (cget ch (head d r)) as [c|] eqn:G.
+    + apply cget_in in G. destruct (F _ G) as (W & _ & _). cbn in W. rewrite (IH _ _ r W). split.
+      * intros i. exists (head d r), c. tauto.
+      * intros (k & c' & i & ix). destruct (F _ i) as (_ & _ & H). cbn in H.
+        rewrite Forall_forall in H. specialize (H _ ix). subst k.
+        apply (in_cget _ _ _ nd) in i, G. congruence.
+    + split; [discriminate|]. intros (k & c' & i & ix). exfalso.
+      destruct (F _ i) as (_ & _ & H). cbn in H. rewrite Forall_forall in H. specialize (H _ ix).
+      subst k. apply cget_none in G. apply G. apply (in_map fst) in i. exact i.
+Qed.
+
+(* ------------------------------------------------------------------ recursive_iter *)
+Lemma NoDup_app_disjoint (A : Type) (l1 l2 : list A) :
+  NoDup l1 -> NoDup l2 -> (forall x, In x l1 -> ~ In x l2) -> NoDup (l1 ++ l2).
+Proof.
+  induction l1 as [|a l1 IH]; intros n1 n2 D; [assumption|]. inversion n1; subst. cbn.
+  constructor.
+  - rewrite in_app_iff. intros [i|i]; [tauto|]. apply (D a); [left; reflexivity|assumption].
+  - apply IH; [assumption|assumption|]. intros x i. apply D. right. assumption.
+Qed.
+
+Lemma riter_nodup h : forall d t, wf h d t -> NoDup (riter h t).
+Proof.
+  induction h as [|h IH]; intros d t W.
+  - destruct t; [assumption|contradiction].
+  - destruct t as [|ch]; [contradiction|]. destruct W as [nd F]. cbn [riter].
+    induction ch as [|[k c] ch IHch]; [constructor|].
+    inversion nd as [|? ? n nd']; inversion F as [|? ? P F']; subst. cbn [flat_map snd].
+    destruct P as (W & _ & H). cbn [fst snd] in *. apply NoDup_app_disjoint.
+    + apply (IH _ _ W).
+    + apply IHch; assumption.
+    + intros x ix iy. apply in_flat_map in iy as [[k' c'] [i ix']]. cbn in ix'.
+      rewrite Forall_forall in H, F'. specialize (H _ ix).
+      destruct (F' _ i) as (_ & _ & H'). cbn in H'. rewrite Forall_forall in H'.
+      specialize (H' _ ix'). apply n. apply (in_map fst) in i. cbn in i. congruence.
+Qed.
+
+(* ------------------------------------------------------------------ partial_cmp *)
+(* what a comparison result says about the two row sets; a panic only ever happens on
+   incomparable sets, where the specified answer is None *)
+Definition cmp_rel (A B : list row) (p : pres) : Prop :=
+  match p with
+  | PSome Eq => incl A B /\ incl B A
+  | PSome Lt => incl A B /\ ~ incl B A
+  | PSome Gt => incl B A /\ ~ incl A B
+  | PNone => ~ incl A B /\ ~ incl B A
+  | PPanic => ~ incl A B /\ ~ incl B A
+  end.
+
+Lemma hs_contains_in s r : hs_contains s r = true <-> In r s.
+Proof.
+  unfold hs_contains, hs_get. destruct (find _ s) eqn:F; cbn.
+  - apply find_row_some in F as [_ p]. apply cnt_pos_in in p. tauto.
+  - apply find_row_none, cnt_zero_notin in F. split; [discriminate|tauto].
+Qed.
+
+Lemma forallb_contains_incl a b : forallb (fun x => hs_contains b x) a = true <-> incl a b.
+Proof.
+  rewrite forallb_forall. unfold incl. split; intros H x i; apply hs_contains_in, H, i.
+Qed.
+
+Lemma pcmp_leaf ra rb : NoDup ra -> NoDup rb -> cmp_rel ra rb (pcmp 0 (Leaf ra) (Leaf rb)).
+Proof.
+  intros na nb. cbn [pcmp]. unfold hs_len, hs_iter.
+  destruct (Nat.compare_spec (length ra) (length rb)) as [E|L|G].
+  - destruct (forallb _ ra) eqn:F.
+    + apply forallb_contains_incl in F. cbn. split; [assumption|].
+      apply NoDup_length_incl; [assumption|lia|assumption].
+    + cbn. assert (nab : ~ incl ra rb).
+      { intros i. apply forallb_contains_incl in i. congruence. }
+      split; [assumption|]. intros i. apply nab. apply NoDup_length_incl; [assumption|lia|assumption].
+  - destruct (forallb _ ra) eqn:F.
+    + apply forallb_contains_incl in F. cbn. split; [assumption|].
+      intros i. pose proof (NoDup_incl_length nb i). lia.
+    + cbn. split.
+      * intros i. apply forallb_contains_incl in i. congruence.
+      * intros i. pose proof (NoDup_incl_length nb i). lia.
+  - destruct (forallb _ rb) eqn:F.
+    + apply forallb_contains_incl in F. cbn. split; [assumption|].
+      intros i. pose proof (NoDup_incl_length na i). lia.
+    + cbn. split.
+      * intros i. pose proof (NoDup_incl_length na i). lia.
+      * intros i. apply forallb_contains_incl in i. congruence.
+Qed.
+
+(* rows below the child with key k (none if there is no such child) *)
+Definition crows (h : nat) (ch : list (N * ght)) (k : N) : list row :=
+  match cget ch k with Some c => riter h c | None => [] end.
+
+Lemma crows_head h d ch k x :
+  Forall (child_ok (wf h (S d)) (riter h) d) ch -> In x (crows h ch k) -> head d x = k.
+Proof.
+  intros F i. unfold crows in i. destruct (cget ch k) as [c|] eqn:G; [|contradiction].
+  apply cget_in in G. rewrite Forall_forall in F. destruct (F _ G) as (_ & _ & H).
+  cbn in H. rewrite Forall_forall in H. apply H, i.
+Qed.
+
+Lemma in_rows_crows h d ch x :
+  NoDup (map fst ch) -> Forall (child_ok (wf h (S d)) (riter h) d) ch ->
+  (In x (riter (S h) (Inner ch)) <-> In x (crows h ch (head d x))).
+Proof.
+  intros nd F. rewrite in_riter_inner. split.
+  - intros (k & c & i & ix). pose proof F as F0. rewrite Forall_forall in F0.
+    destruct (F0 _ i) as (_ & _ & H). cbn in H. rewrite Forall_forall in H. specialize (H _ ix).
+    subst k. unfold crows. rewrite (in_cget _ _ _ nd i). assumption.
+  - unfold crows. destruct (cget ch (head d x)) as [c|] eqn:G; [|contradiction].
+    intros ix. exists (head d x), c. split; [apply cget_in, G|assumption].
+Qed.
+
+Lemma incl_rows_crows h d ca cb :
+  NoDup (map fst ca) -> Forall (child_ok (wf h (S d)) (riter h) d) ca ->
+  NoDup (map fst cb) -> Forall (child_ok (wf h (S d)) (riter h) d) cb ->
+  (incl (riter (S h) (Inner ca)) (riter (S h) (Inner cb)) <->
+   forall k, incl (crows h ca k) (crows h cb k)).
+Proof.
+  intros nda Fa ndb Fb. split.
+  - intros I k x i. pose proof (@crows_head h d ca k x Fa i) as Hk. subst k.
+    apply (@in_rows_crows h d cb x ndb Fb), I, (@in_rows_crows h d ca x nda Fa), i.
+  - intros H x i. apply (@in_rows_crows h d cb x ndb Fb), H, (@in_rows_crows h d ca x nda Fa), i.
+Qed.
+
+Definition flagres (sag oag : bool) : pres :=
+  match sag, oag with
+  | true, false => PSome Gt
+  | false, true => PSome Lt
+  | false, false => PSome Eq
+  | true, true => PPanic
+  end.
+
+Section Loop.
+  Variables (h d : nat) (ca cb : list (N * ght)).
+  Hypothesis IH : forall a b, wf h (S d) a -> wf h (S d) b ->
+                    cmp_rel (riter h a) (riter h b) (pcmp h a b).
+  Hypothesis Fa : Forall (child_ok (wf h (S d)) (riter h) d) ca.
+  Hypothesis Fb : Forall (child_ok (wf h (S d)) (riter h) d) cb.
+
+  Let AB k := incl (crows h ca k) (crows h cb k).
+  Let BA k := incl (crows h cb k) (crows h ca k).
+  Let EG := exists k, ~ AB k.
+  Let EL := exists k, ~ BA k.
+
+  Lemma child_wf ch k c :
+    Forall (child_ok (wf h (S d)) (riter h) d) ch -> cget ch k = Some c ->
+    wf h (S d) c /\ riter h c <> [].
+  Proof.
+    intros F G. apply cget_in in G. rewrite Forall_forall in F.
+    destruct (F _ G) as (W & NE & _). split; assumption.
+  Qed.
+
+  Lemma pcmp_loop_spec ks : forall sag oag,
+    (forall k, In k ks -> In k (map fst ca) \/ In k (map fst cb)) ->
+    (sag = true -> EG) -> (oag = true -> EL) ->
+    let res := pcmp_loop (pcmp h) ca cb ks sag oag in
+    (exists sag' oag', res = flagres sag' oag' /\
+       (sag' = true -> EG) /\ (oag' = true -> EL) /\
+       (sag' = false -> sag = false /\ forall k, In k ks -> AB k) /\
+       (oag' = false -> oag = false /\ forall k, In k ks -> BA k))
+    \/ ((res = PNone \/ res = PPanic) /\ EG /\ EL).
+  Proof.
+    induction ks as [|k ks IHks]; intros sag oag K Hs Ho; cbn zeta.
+    - left. exists sag, oag. cbn. repeat split; try assumption; intros ? [].
+    - cbn [pcmp_loop].
+      assert (K' : forall k0, In k0 ks -> In k0 (map fst ca) \/ In k0 (map fst cb))
+        by (intros k0 i; apply K; right; assumption).
+      (* what the rest of the loop gives, once this key is accounted for *)
+      assert (Step : forall sag1 oag1,
+                 (sag1 = true -> EG) -> (oag1 = true -> EL) ->
+                 (sag1 = false -> sag = false /\ AB k) -> (oag1 = false -> oag = false /\ BA k) ->
+                 let res := pcmp_loop (pcmp h) ca cb ks sag1 oag1 in
+                 (exists sag' oag', res = flagres sag' oag' /\
+                    (sag' = true -> EG) /\ (oag' = true -> EL) /\
+                    (sag' = false -> sag = false /\ forall k0, In k0 (k :: ks) -> AB k0) /\
+                    (oag' = false -> oag = false /\ forall k0, In k0 (k :: ks) -> BA k0))
+                 \/ ((res = PNone \/ res = PPanic) /\ EG /\ EL)).
+      { intros sag1 oag1 Hs1 Ho1 Bs Bo. cbn zeta.
+        destruct (IHks sag1 oag1 K' Hs1 Ho1) as [(s' & o' & E & Gs & Go & Ps & Po)|R]; [left|right; exact R].
+        exists s', o'. split; [exact E|]. split; [exact Gs|]. split; [exact Go|]. split.
+        - intros e. destruct (Ps e) as [e1 A]. destruct (Bs e1) as [e0 Ak]. split; [exact e0|].
+          intros k0 [<-|i]; [exact Ak|apply A, i].
+        - intros e. destruct (Po e) as [e1 A]. destruct (Bo e1) as [e0 Bk]. split; [exact e0|].
+          intros k0 [<-|i]; [exact Bk|apply A, i]. }
+      destruct (cget ca k) as [x|] eqn:Ga, (cget cb k) as [y|] eqn:Gb.
+      + destruct (@child_wf ca k x Fa Ga) as [Wx _], (@child_wf cb k y Fb Gb) as [Wy _].
+        pose proof (IH x y Wx Wy) as C.
+        assert (Ea : crows h ca k = riter h x) by (unfold crows; rewrite Ga; reflexivity).
+        assert (Eb : crows h cb k = riter h y) by (unfold crows; rewrite Gb; reflexivity).
+        destruct (pcmp h x y) as [[| |]| |]; cbn [cmp_rel] in C; destruct C as [C1 C2].
+        * (* Equal *) apply Step; try assumption.
+          -- intros e. split; [exact e|]. unfold AB. rewrite Ea, Eb. exact C1.
+          -- intros e. split; [exact e|]. unfold BA. rewrite Ea, Eb. exact C2.
+        * (* Less *) apply Step; try assumption.
+          -- intros _. exists k. unfold BA. rewrite Ea, Eb. exact C2.
+          -- intros e. split; [exact e|]. unfold AB. rewrite Ea, Eb. exact C1.
+          -- discriminate.
+        * (* Greater *) apply Step; try assumption.
+          -- intros _. exists k. unfold AB. rewrite Ea, Eb. exact C2.
+          -- discriminate.
+          -- intros e. split; [exact e|]. unfold BA. rewrite Ea, Eb. exact C1.
+        * right. split; [left; reflexivity|]. split; exists k; [unfold AB|unfold BA]; rewrite Ea, Eb; assumption.
+        * right. split; [right; reflexivity|]. split; exists k; [unfold AB|unfold BA]; rewrite Ea, Eb; assumption.
+      + (* only self has the key *)
+        destruct (@child_wf ca k x Fa Ga) as [_ NE].
+        assert (Ea : crows h ca k = riter h x) by (unfold crows; rewrite Ga; reflexivity).
+        assert (Eb : crows h cb k = []) by (unfold crows; rewrite Gb; reflexivity).
+        apply Step; try assumption.
+        * intros _. exists k. unfold AB. rewrite Ea, Eb. intros I.
+          destruct (riter h x) as [|r0 l]; [congruence|]. apply (I r0). left. reflexivity.
+        * discriminate.
+        * intros e. split; [exact e|]. unfold BA. rewrite Eb. intros r0 [].
+      + (* only other has the key *)
+        destruct (@child_wf cb k y Fb Gb) as [_ NE].
+        assert (Ea : crows h ca k = []) by (unfold crows; rewrite Ga; reflexivity).
+        assert (Eb : crows h cb k = riter h y) by (unfold crows; rewrite Gb; reflexivity).
+        apply Step; try assumption.
+        * intros _. exists k. unfold BA. rewrite Ea, Eb. intros I.
+          destruct (riter h y) as [|r0 l]; [congruence|]. apply (I r0). left. reflexivity.
+        * intros e. split; [exact e|]. unfold AB. rewrite Ea. intros r0 [].
+        * discriminate.
+      + (* (None, None) => unreachable!(): indeed unreachable *)
+        exfalso. apply cget_none in Ga, Gb. destruct (K k (or_introl eq_refl)); tauto.
+  Qed.
+End Loop.
+
+Theorem pcmp_spec h : forall d a b, wf h d a -> wf h d b ->
+  cmp_rel (riter h a) (riter h b) (pcmp h a b).
+Proof.
+  induction h as [|h IH]; intros d a b Wa Wb.
+  - destruct a as [ra|], b as [rb|]; try contradiction. apply pcmp_leaf; assumption.
+  - destruct a as [|ca], b as [|cb]; try contradiction.
+    destruct Wa as [nda Fa], Wb as [ndb Fb]. cbn [pcmp].
+    destruct (is_nil ca && is_nil cb) eqn:Nil.
+    + destruct ca, cb; try discriminate. cbn. split; intros x [].
+    + pose proof (@pcmp_loop_spec h d ca cb (IH (S d)) Fa Fb (map fst ca ++ map fst cb) false false) as L.
+      assert (Kall : forall k, In k (map fst ca ++ map fst cb) -> In k (map fst ca) \/ In k (map fst cb))
+        by (intros k i; apply in_app_iff in i; exact i).
+      specialize (L Kall ltac:(discriminate) ltac:(discriminate)). cbn zeta beta in L.
+      pose proof (@incl_rows_crows h d ca cb nda Fa ndb Fb) as IAB.
+      pose proof (@incl_rows_crows h d cb ca ndb Fb nda Fa) as IBA.
+      assert (Out : forall ch k, ~ In k (map fst ch) -> crows h ch k = []).
+      { intros ch k n. unfold crows. apply cget_none in n. rewrite n. reflexivity. }
+      assert (EGn : (exists k, ~ incl (crows h ca k) (crows h cb k)) ->
+                    ~ incl (riter (S h) (Inner ca)) (riter (S h) (Inner cb))).
+      { intros [k n] I. apply n. apply IAB, I. }
+      assert (ELn : (exists k, ~ incl (crows h cb k) (crows h ca k)) ->
+                    ~ incl (riter (S h) (Inner cb)) (riter (S h) (Inner ca))).
+      { intros [k n] I. apply n. apply IBA, I. }
+      destruct L as [(s' & o' & E & Gs & Go & Ps & Po)|[[E|E] [G1 G2]]].
+      * rewrite E.
+        assert (AllA : s' = false -> incl (riter (S h) (Inner ca)) (riter (S h) (Inner cb))).
+        { intros e. apply IAB. intros k. destruct (Ps e) as [_ A].
+          destruct (in_dec N.eq_dec k (map fst ca ++ map fst cb)) as [i|n]; [apply A, i|].
+          rewrite in_app_iff in n. rewrite (Out ca k) by tauto. intros r0 []. }
+        assert (AllB : o' = false -> incl (riter (S h) (Inner cb)) (riter (S h) (Inner ca))).
+        { intros e. apply IBA. intros k. destruct (Po e) as [_ A].
+          destruct (in_dec N.eq_dec k (map fst ca ++ map fst cb)) as [i|n]; [apply A, i|].
+          rewrite in_app_iff in n. rewrite (Out cb k) by tauto. intros r0 []. }
+        destruct s', o'; cbn [flagres cmp_rel]; auto.
+      * rewrite E. cbn. auto.
+      * rewrite E. cbn. auto.
+Qed.
